@@ -286,7 +286,7 @@ pub fn check(v: &View) -> Vec<Violation> {
             // the epilogue drops the weak handles (the settle phase gives it ample virtual time)
             if t0 < v.phase_seq(Phase::ClientsDone) && v.out.outcome.cap_phase == 0 {
                 crate::log::probe("c05_died_before_weak_dropped");
-                if a.dead.is_none_or(|d| d > dropped) && !cen.lib_temporaries_possible && !cen.maybe_at(t0) {
+                if a.dead.is_none_or(|d| d > dropped) && !cen.lib_temporaries_possible && !cen.maybe_at(t0) && !v.busy_at(a, dropped) {
                     out.push(violation(P, "kept-alive-without-strong-handle", "", format!("actor {aidx}: the last strong handle went away at seq {t0} but the actor was still running when the weak handles were dropped at {dropped} (dead {:?})", a.dead)));
                 }
             }
